@@ -83,15 +83,26 @@ class Ctx:
         """Build harness/cmd/worker against /repo's current working tree."""
         d = self.sub("build")
         h = os.path.join(d, "h")
-        shutil.copytree(os.path.join(VERIF, "harness"), h)
+        shutil.copytree(os.path.join(VERIF, "harness"), h, ignore=shutil.ignore_patterns("facade_ext"))
         shutil.copy(os.path.join(REPO, "go.sum"), os.path.join(h, "go.sum"))
         gomod = open(os.path.join(h, "go.mod")).read()
         gomod = re.sub(r"replace github.com/grafana/cog => \S+", "replace github.com/grafana/cog => " + REPO, gomod)
         open(os.path.join(h, "go.mod"), "w").write(gomod)
         out = os.path.join(self.scratch, name)
         cmd = ["go", "build", "-trimpath", "-tags", tags, "-o", out]
+        # facade extensions live in /verif (harness/facade_ext/*.go, all `//go:build verif`) and are
+        # overlaid into /repo/verifapi at build time: nothing is written under /repo
+        ov = {"Replace": {}}
         if overlay:
-            cmd += ["-overlay", overlay]
+            ov = json.load(open(overlay))
+        ext = os.path.join(VERIF, "harness", "facade_ext")
+        for f in sorted(os.listdir(ext)) if os.path.isdir(ext) else []:
+            if f.endswith(".go"):
+                ov["Replace"][os.path.join(REPO, "verifapi", "ext_" + f)] = os.path.join(ext, f)
+        ovp = os.path.join(d, "overlay.json")
+        json.dump(ov, open(ovp, "w"))
+        if ov["Replace"]:
+            cmd += ["-overlay", ovp]
         cmd += ["./cmd/worker"]
         t = time.time()
         p = subprocess.run(cmd, cwd=h, env=self.goenv(), capture_output=True, text=True)
